@@ -192,7 +192,8 @@ def handleModel (j : Json) : Except String Json := do
       let st' := st.map fun kv => (imp kv.1, kv.2)
       Json.mkObj [("vals", assocJ (optJ valJ) (dynNames.map fun n => (imp n, docValue noInterp d' st' d'.fuel (imp n)))),
                   ("rhs", assocJ (optJ ratJ) (varNames.map fun x => (imp x, docRhs noInterp d' st' (imp x))))]
-    let read := Json.mkObj [("init", assocJ (optJ valJ) readInit), ("at", .arr readAt.toArray)]
+    let read := Json.mkObj [("init", assocJ (optJ valJ) readInit), ("at", .arr readAt.toArray),
+                            ("unresolved", strsJ d'.undefinedNames)]
     pure (Json.mkObj (base ++ [("read", read)]))
 
 def handle (j : Json) : Except String Json := do
